@@ -1245,6 +1245,9 @@ def replay(rec):
         n1 = min(max(mint(m, "n1", mint(m, "n", 8)), 8), 14)
         k = min(max(mint(m, "k", mint(m, "len(y_new)", 3)), 1), 6)
         l0 = min(max(mint(m, "l0", 3), 0), 20)
+        if "n_old" in m and "l0" in m:
+            # keep the counterexample's CUTOFF (the last training label), whatever length the oracle fits on
+            l0 = min(max(mint(m, "l0", 3) + mint(m, "n_old", 1) - 1, -40), 40) - n1 + 1
         nf = min(max(mint(m, "len(fh)", 2), 1), 3)
         fh = sorted(set(max(1, min(abs(h), 5)) for h in ints_from_model(m, "fh", nf))) or [1, 3]
         if fh == [1] and nf > 1:
